@@ -453,68 +453,78 @@ def check_eval(ctx, case, impl, model, model_rat):
     n = N - k
     allgood = all(case['mask'])
     ctx.count('eval:%s:k=%d:%s' % ('err:' + impl['err'] if 'err' in impl else 'ok', k, 'unmasked' if allgood else 'masked'))
-    # ---- correspondence at Float
-    if 'err' in impl or 'err' in model:
-        if impl.get('err') != model.get('err'):
+    # ---- what both parts need
+    if 'err' in impl:
+        if 'err' not in model or impl.get('err') != model.get('err'):
             ctx.disagree('eval', case, impl, model)
         return
-    I, M = impl['ok'], model['ok']
-    if isinstance(I['bf'], str) or isinstance(M['bf'], str):
-        # bsplvn read past the end of a too short knot vector; value() does not get there (action returns -2)
-        if I['bf'] != M['bf'] or any(I[key] != M[key] for key in ('indx', 'action', 'lower', 'upper', 'mask')) or \
-                [core.f2b(v) for v in I['y']] != M['y']:
-            ctx.disagree('eval:short', case, I, M)
+    I = impl['ok']
+    if isinstance(I['bf'], str):
+        M = model.get('ok', {})
+        if 'err' in model or I['bf'] != M.get('bf') or any(I[key] != M.get(key) for key in ('indx', 'action', 'lower', 'upper', 'mask')) or \
+                [core.f2b(v) for v in I['y']] != M.get('y'):
+            ctx.disagree('eval:short', case, I, model)
         ctx.count('eval:bsplvn-IndexError')
         return
     bfI = np.array([[np.nan if v == 'nan' else core.b2f(v) for v in r] for r in I['bf']], dtype='d').reshape(len(I['indx']), k)
     cf = bf_(case['coeff'])
-    for key in ('indx', 'action', 'lower', 'upper', 'mask'):
-        if I[key] != M[key]:
-            ctx.disagree('eval:' + key, case, {key: I[key]}, {key: M[key]})
-            return
-    if I['action'] and I['indx'] == sorted(I['indx']):
-        # hypothesis RowsOf of value_spec_partial, on what the real action() returned for the sorted points
-        for i, (lo_, up_) in enumerate(zip(I['lower'], I['upper'])):
-            rows = [p for p in range(len(I['indx'])) if lo_ <= p <= up_]
-            if rows != [p for p, v in enumerate(I['indx']) if v - k + 1 == i]:
-                ctx.disagree('hypothesis:RowsOf', case, {'lower': I['lower'], 'upper': I['upper']}, {'indx': I['indx']})
-                return
-        ctx.count('eval:RowsOf-checked')
-    mbf = [[canon(core.b2f(v)) for v in r] for r in M['bf']]
-    if I['bf'] != mbf:
-        ctx.disagree('eval:bsplvn(bit-exact)', case, {'bf': I['bf']}, {'bf': mbf})
-        return
-    my = [core.b2f(v) for v in M['y']]
-    # scale of the dot products: sum |bf|*|c| over the row
     rowscale = np.zeros(len(x))
     if len(x):
         big = float(np.max(np.abs(cf))) if len(cf) else 0.0
         rs = np.nansum(np.abs(bfI), axis=1) * big
         rowscale[perm] = rs
-    for p, (a, b_) in enumerate(zip(I['y'], my)):
-        if not closeS(a, b_, rowscale[p]):
-            ctx.disagree('eval:value', dict(case, at=p), {'y': a}, {'y': b_})
+
+    # ---- correspondence at Float (a disagreement never suppresses the property oracle below)
+    def _corr():
+        if 'err' in model:
+            ctx.disagree('eval', case, impl, model)
             return
-    # ---- exact run: interval decisions identical, values within tolerance, value == pointwise spline
-    if model_rat is not None:
-        if 'err' in model_rat:
-            ctx.disagree('eval-rat', case, impl, model_rat)
+        M = model['ok']
+        if isinstance(M['bf'], str):
+            ctx.disagree('eval:short', case, I, M)
             return
-        Rr = model_rat['ok']
-        for key in ('indx', 'lower', 'upper', 'mask'):
-            if I[key] != Rr[key]:
-                ctx.disagree('eval-rat:' + key, case, {key: I[key]}, {key: Rr[key]})
+        for key in ('indx', 'action', 'lower', 'upper', 'mask'):
+            if I[key] != M[key]:
+                ctx.disagree('eval:' + key, case, {key: I[key]}, {key: M[key]})
                 return
-        finite = bool(np.all(np.isfinite(bfI)))
-        if finite:
-            ry = [ratf(q) for q in Rr['y']]
-            for p, (a, q) in enumerate(zip(I['y'], ry)):
-                if not closeS(a, float(q), rowscale[p]):
-                    ctx.disagree('eval-rat:value', dict(case, at=p), {'y': a}, {'y': float(q)})
+        if I['action'] and I['indx'] == sorted(I['indx']):
+            # hypothesis RowsOf of value_spec_partial, on what the real action() returned for the sorted points
+            for i, (lo_, up_) in enumerate(zip(I['lower'], I['upper'])):
+                rows = [p for p in range(len(I['indx'])) if lo_ <= p <= up_]
+                if rows != [p for p, v in enumerate(I['indx']) if v - k + 1 == i]:
+                    ctx.disagree('hypothesis:RowsOf', case, {'lower': I['lower'], 'upper': I['upper']}, {'indx': I['indx']})
                     return
-            if Rr['action'] and Rr['y'] != Rr['spline']:
-                ctx.disagree('model:value==splineAt(exact)', case, {'y': Rr['y'][:4]}, {'spline': Rr['spline'][:4]})
-            ctx.count('eval:rat-run')
+            ctx.count('eval:RowsOf-checked')
+        mbf = [[canon(core.b2f(v)) for v in r] for r in M['bf']]
+        if I['bf'] != mbf:
+            ctx.disagree('eval:bsplvn(bit-exact)', case, {'bf': I['bf']}, {'bf': mbf})
+            return
+        my = [core.b2f(v) for v in M['y']]
+        for p, (a, b_) in enumerate(zip(I['y'], my)):
+            if not closeS(a, b_, rowscale[p]):
+                ctx.disagree('eval:value', dict(case, at=p), {'y': a}, {'y': b_})
+                return
+        # ---- exact run: interval decisions identical, values within tolerance, value == pointwise spline
+        if model_rat is not None:
+            if 'err' in model_rat:
+                ctx.disagree('eval-rat', case, impl, model_rat)
+                return
+            Rr = model_rat['ok']
+            for key in ('indx', 'lower', 'upper', 'mask'):
+                if I[key] != Rr[key]:
+                    ctx.disagree('eval-rat:' + key, case, {key: I[key]}, {key: Rr[key]})
+                    return
+            finite = bool(np.all(np.isfinite(bfI)))
+            if finite:
+                ry = [ratf(q) for q in Rr['y']]
+                for p, (a, q) in enumerate(zip(I['y'], ry)):
+                    if not closeS(a, float(q), rowscale[p]):
+                        ctx.disagree('eval-rat:value', dict(case, at=p), {'y': a}, {'y': float(q)})
+                        return
+                if Rr['action'] and Rr['y'] != Rr['spline']:
+                    ctx.disagree('model:value==splineAt(exact)', case, {'y': Rr['y'][:4]}, {'spline': Rr['spline'][:4]})
+                ctx.count('eval:rat-run')
+    _corr()
     # ---- property oracle (domain of the statement: nothing masked, knots non-decreasing, first interval non-empty)
     if not allgood or N < 2 * k or np.any(np.diff(t) < 0) or not (t[k - 1] < t[k]) or len(x) == 0:
         ctx.count('eval:outside-oracle-domain')
